@@ -31,11 +31,11 @@ def cargo_build():
     return p.returncode == 0, failing, p.stdout
 
 
-def run_batch(rep, pid, preset, cases, random_n, max_cases, batch, shapes=0, boundary=0):
+def run_batch(rep, pid, preset, cases, random_n, max_cases, batch, shapes=0, boundary=0, hints=0):
     """one generated crate: generate, compile (dropping failing modules and rebuilding), run, judge"""
     meta = os.path.join(c.OUT, "cases", "%s.meta.%d.ndjson" % (pid, batch))
     args = ["programs-gen", "--dir", GENPROG, "--preset", preset, "--random", random_n, "--seed", c.seed() + batch,
-            "--meta", meta, "--max-cases", max_cases, "--shapes", shapes, "--boundary", boundary]
+            "--meta", meta, "--max-cases", max_cases, "--shapes", shapes, "--boundary", boundary, "--hints", hints]
     if cases:
         args += ["--cases", cases]
     c.harness(args)
@@ -173,7 +173,7 @@ def check(rep, pid, preset, tier, rule):
     rep.add(states=r.distinct, transitions=r.generated)
     total_in = 0
     metas, n_in = run_batch(rep, pid, preset, cases, 40 if tier == "quick" else 80, 30 if tier == "quick" else 120, 0,
-                            shapes=40 if tier == "quick" else 1000, boundary=6 if tier == "quick" else 40)
+                            shapes=40 if tier == "quick" else 1000, boundary=6 if tier == "quick" else 40, hints=24 if tier == "quick" else 343)
     total_in += n_in
     samples = [{"docs": [d["text"] for d in m["docs"]], "rendered": m["rendered"][:400]} for m in metas[:2]]
     os.remove(cases)
